@@ -23,6 +23,10 @@
 (*                            :1990, CallableValue :1763 -> signature.py   *)
 (*                            :1475-1523), substitute_typevars             *)
 (*   typevar.py:34-180        resolve_bounds_map / solve                   *)
+(*   type_object.py:141-164   the protocol branch of TypeObject.can_assign *)
+(*                            with its positive cache ("sessions": several *)
+(*                            calls in one run; one known deviation)       *)
+(*   node_visitor.py:636      duplicate suppression (number of diagnostics)*)
 (* Assignability of type-variable-free terms is ImplCA of Assign.tla.      *)
 (*                                                                         *)
 (* Ref* operators are the meaning of the property and never mention the    *)
@@ -42,6 +46,7 @@ CONSTANTS
     FnFilter,  \* "all" | "nogeneric3": "nogeneric3" leaves out the three-argument functions (quick tier)
     MaxSess,   \* most calls per session (0: no sessions)
     Shapes,    \* how the arguments are written: {"plain"} f(a, k=b) and/or "star" f(*(a,), **{"k": b})
+    FixProtoCache,  \* TRUE: model the repair proposed in proposed/C06-fix-1.diff (cache keyed by both values)
     Bug        \* "none"; sensitivity self-tests: "varargs_unchecked", "no_inherent_bounds"
 
 (***************************************************************************)
@@ -56,7 +61,8 @@ Opt(t) == Union(<<t, Known(NONE)>>)
 TInt == Typed("int")    TStr == Typed("str")    TFloat == Typed("float")   TBool == Typed("bool")
 TObj == Typed("object")
 
-\* objects outside Values.tla: instances of the library classes K / D and the helper functions
+\* objects outside Values.tla: instances of the library classes K, K2(K), W, D, of the session classes
+\* ItI / ItS, and the helper functions
 XClasses == {"K", "K2", "W", "D", "function", "ItI", "ItS"}
 IterClasses == {"ItI", "ItS"}       \* user classes with  def __iter__(self) -> Iterator[int] / Iterator[str]  (sessions)
 XSupers(c) == IF c = "K2" THEN {"K2", "K", "object"}                         \* class K2(K)
@@ -660,7 +666,9 @@ ImplSessFresh(c) ==
 \* adds nothing new, so the cache is the set of classes with a FRESH positive match
 ImplSessCache(calls) == {calls[i].arg.c : i \in {j \in 1..Len(calls) : calls[j].arg.c \in IterClasses /\ ImplSessFresh(calls[j])}}
 \* type_object.py:146-148: a cache hit returns the remembered (positive) result
-ImplSessAccepted(calls, i) == ImplSessFresh(calls[i]) \/ calls[i].arg.c \in ImplSessCache(SubSeq(calls, 1, i - 1))
+\* (with the proposed repair a hit needs the same protocol parametrisation, for which the fresh verdict is the same)
+ImplSessAccepted(calls, i) ==
+    ImplSessFresh(calls[i]) \/ (~FixProtoCache /\ calls[i].arg.c \in ImplSessCache(SubSeq(calls, 1, i - 1)))
 
 \* Known deviation: the argument's class was passed EARLIER in the same run where a parametrisation of the
 \* same protocol it does belong to is declared (a precise predicate over Ref notions only: any OTHER wrong
@@ -676,8 +684,9 @@ SessExcused(calls, i, accepted) == accepted /\ RefSessBad(calls[i]) /\ SessDevCl
 SessResultOK(calls, i, inferred, real) == (~RefSessBad(calls[i]) /\ ~real.raised) => MemberX(real.o, inferred)
 
 (***************************************************************************)
-(* Generator (stages: "fn" -> "args" -> "done"); Assign's variables ta, tb,*)
-(* ob are carried along unchanged                                          *)
+(* Generator.  Single calls: stages "fn" -> "args" -> "done"; sessions:     *)
+(* "fn" -> "sess" -> "sdone".  Assign's variables ta, tb, ob are carried    *)
+(* along unchanged.                                                        *)
 (***************************************************************************)
 VARIABLE case
 cvars == <<stage, ta, tb, ob, case>>
